@@ -8,6 +8,8 @@
 2. Export: one witness step sequence per distinct configuration (2 nodes all commands, 3 nodes).
 3. Replay: real ReplicatedShardActors, the harness is the network; after every step each node's
            replication state and served value (TYPE/GET/HGETALL) are logged.
+   Also  : the simulator's replicas (multi_node.rs): SimulatedNode under the same step rules (simnode), and the
+           whole MultiNodeSimulation with its own network, gossip and anti-entropy (simcluster, SimClusterVerdict).
 4. TV    : ReplTrace replays the named action and compares state and served value on every
            node at every step, and agreement whenever nothing is in flight. Random runs too.
 """
@@ -70,6 +72,17 @@ def run(tier):
     tr = os.path.join(wd, "cluster.ndjson")
     vlib.vh(["repl", "cluster", "--seed", vlib.seed() * 5 + 2, "--n", 3000 if thorough else 300, "--out", tr])
     vlib.validate_runs(rep, "ReplTrace", "ReplTrace", tr, wd, "cluster", dev_cfgs=DEV, describe=describe, strip=("nodes",))
+    os.remove(tr)
+    # the simulator's replicas (src/simulator/multi_node.rs, anchored): its node glue under the step-by-step rules of
+    # Replication.tla, and the whole MultiNodeSimulation (own network with delays, loss, partitions; broadcast or selective
+    # gossip through the ring; own anti-entropy) under Converged + WinnerIsGreatestStamp + ServedIsState at the end
+    tr = os.path.join(wd, "simnode.ndjson")
+    vlib.vh(["repl", "simnode", "--seed", vlib.seed() * 3 + 1, "--n", 2000 if thorough else 200, "--out", tr])
+    vlib.validate_runs(rep, "ReplTrace", "ReplTrace", tr, wd, "simnode", dev_cfgs=DEV, describe=describe, strip=("nodes",))
+    os.remove(tr)
+    tr = os.path.join(wd, "simcluster.ndjson")
+    vlib.vh(["repl", "simcluster", "--seed", vlib.seed() * 3 + 2, "--n", 4000 if thorough else 400, "--out", tr])
+    vlib.validate_runs(rep, "ReplTrace", "ReplTrace", tr, wd, "simcluster", dev_cfgs=DEV, describe=describe, strip=("nodes",))
     os.remove(tr)
     rep.cov["distinct_nontrivial"] = rep.cov["traces_validated_against_impl"]
     rep.cov["rule"] = ("a case is one run of 2-4 real replicated shard actors on one key: client commands at any node, deltas "
